@@ -157,7 +157,15 @@ def run_harnesses(scratch, harnesses, log=None):
     groups = {}
     for h in harnesses:
         groups.setdefault((h.feat, h.stubbing), []).append(h)
-    for (feat, stubbing), hs in sorted(groups.items()):
+    # kani-driver keeps every harness's output in its own address space: with ~20 long harnesses in one invocation the driver itself
+    # ran into the address-space limit ("memory allocation of 256 bytes failed") and the remaining harnesses were lost -> batches
+    BATCH = int(os.environ.get("VERIF_KANI_BATCH", "8"))
+    batches = []
+    for key, hs_all in sorted(groups.items()):
+        hs_all = sorted(hs_all, key=lambda h: -h.timeout)
+        for i in range(0, len(hs_all), BATCH):
+            batches.append((key, hs_all[i:i + BATCH]))
+    for (feat, stubbing), hs in batches:
         tgt = os.path.join(scratch.root, "kani-target-" + feat)
         outdir = os.path.join(scratch.snap, "result_output_dir")
         shutil.rmtree(outdir, ignore_errors=True)
